@@ -22,12 +22,15 @@ Lemma linMcols_is_fdct_lin :
 Proof. vm_compute. reflexivity. Qed.
 
 Local Open Scope Z_scope.
+Definition dot8 (k : nat) (d : nat -> Z) : Z :=
+  Mz k 0 * d 0%nat + Mz k 1 * d 1%nat + Mz k 2 * d 2%nat + Mz k 3 * d 3%nat +
+  Mz k 4 * d 4%nat + Mz k 5 * d 5%nat + Mz k 6 * d 6%nat + Mz k 7 * d 7%nat.
+
 Lemma fdct_lin_matrix d0 d1 d2 d3 d4 d5 d6 d7 :
   fdct_lin [d0; d1; d2; d3; d4; d5; d6; d7] =
-  map (fun k => Mz k 0 * d0 + Mz k 1 * d1 + Mz k 2 * d2 + Mz k 3 * d3 + Mz k 4 * d4 + Mz k 5 * d5 + Mz k 6 * d6 + Mz k 7 * d7)
-      (seq 0 8).
+  map (fun k => dot8 k (fun i => nth i [d0; d1; d2; d3; d4; d5; d6; d7] 0)) (seq 0 8).
 Proof.
-  lin_open. cbv [map seq Mz nth linMcols]. repeat (f_equal; try ring).
+  lin_open. cbv [map seq dot8 Mz nth linMcols]. repeat (f_equal; try ring).
 Qed.
 Local Close Scope Z_scope.
 
@@ -72,9 +75,9 @@ Qed.
 (* ---------------------------------------------------------------- the 2-D flow graph is the Kronecker square of Mz *)
 Local Close Scope R_scope.
 Local Open Scope Z_scope.
-Fixpoint zsum (n : nat) (f : nat -> Z) : Z := match n with O => 0 | S k => zsum k f + f k end.
+(* entry j = 8v+u of the 2-D graph: row v of Mz applied to (row u of Mz applied to the sample rows) *)
 Definition lin2_entry (data : list Z) (j : nat) : Z :=
-  zsum 64 (fun p => Mz (j / 8) (p / 8) * Mz (j mod 8) (p mod 8) * nth p data 0).
+  dot8 (j / 8) (fun y => dot8 (j mod 8) (fun x => nth (8 * y + x) data 0)).
 
 Lemma fdct_lin2d_kronecker data : length data = 64%nat -> fdct_lin2d data = map (lin2_entry data) (seq 0 64).
 Proof.
@@ -83,8 +86,8 @@ Proof.
   match goal with |- context [rows8 ?l] =>
     let r := eval cbv [rows8 seq map firstn skipn Nat.mul Nat.add] in (rows8 l) in change (rows8 l) with r end.
   cbn [map]. rewrite !fdct_lin_matrix.
-  cbv [map seq Mz nth linMcols transpose8].
+  cbv [map seq nth transpose8].
   rewrite !fdct_lin_matrix.
-  cbv [map seq Mz nth linMcols transpose8 concat app lin2_entry zsum Nat.div Nat.modulo Nat.divmod fst snd Nat.sub].
-  repeat (f_equal; try ring).
+  cbv [map seq dot8 Mz nth linMcols transpose8 concat app lin2_entry Nat.div Nat.modulo Nat.divmod fst snd Nat.sub Nat.mul Nat.add].
+  reflexivity.
 Qed.
